@@ -183,6 +183,9 @@ def run(tier):
         r.functions = [dict(file='transform.py', fn='%s._forward/_jacobian' % s['name'], trusted=[], nonterminating=[], cutloops=0, unrolled=0, terminating=0) for s in PT.CLASSES] + \
                       [dict(file='transform.py', fn='Softmax._forward/_jacobian', trusted=[], nonterminating=[], cutloops=0, unrolled=0, terminating=0)]
         r.extra['paths_explored'] = npaths
+    except (engp.Unsupported, engp.PathLimit) as e:
+        # the code under analysis uses a construct the symbolic executor does not support (e.g. after a change of the code): undecided, not a crash
+        r.undecided.append('Engine P cannot execute the current code symbolically: %s' % (str(e)[:300],))
     except Exception:
         r.broken.append('C02 driver crashed: ' + traceback.format_exc()[-2500:])
     r.assumptions += ['floats are mathematical reals plus NaN / inf flags; the 1e-4 finite-difference statement is only sampled in floats (bounded clause)',
